@@ -510,7 +510,9 @@ theorem derivedTable_sinv {maxRows n : Nat} {rels R : List (List Int)} (hrot : R
     (hwr : ∀ w ∈ rels, ∀ x ∈ w, x ∈ allGensOf n) (hwR : ∀ u ∈ R, ∀ x ∈ u, x ∈ allGensOf n)
     {t t' : Table} (s : SInv maxRows n rels t) {frm dst : Nat} {g : Int} (hg : g ∈ t.allGens)
     (hf : frm < t.len) (hd : dst < t.len ∨ (dst = t.len ∧ frm < dst)) (hdm : dst < maxRows)
-    (h : derivedTable t R frm dst g = .ok (some t')) : SInv maxRows n rels t' := by
+    (h : derivedTable t R frm dst g = .ok (some t')) :
+    SInv maxRows n rels t' ∧ Ext2 t t' ∧ t'.len = max t.len (dst + 1) ∧
+      t'.get frm g = .ok (some dst) := by
   have hcan : ∀ x, t.canon x = x := canon_clean s.clean
   unfold derivedTable at h
   cases h1 : t.get frm g with
@@ -543,7 +545,10 @@ theorem derivedTable_sinv {maxRows n : Nat} {rels R : List (List Int)} (hrot : R
               (fun w hw x hx => by rw [hg1]; exact hwr w hw x hx)
               (fun u hu x hx => by rw [hg1]; exact hwR u hu x hx)
               (fun x hx => by simp at hx; subst hx; rw [hlen1]; omega) hq1 h
-            refine ⟨b1, b2, b5, ?_, by rw [b3.1, e1.1, s.gens]⟩
+            have hfst : t1.get frm g = .ok (some dst) := by rw [join_get_fst hj hg, hcan]
+            have hgt1 : g ∈ t1.allGens := by rw [e1.allGens]; exact hg
+            refine ⟨⟨b1, b2, b5, ?_, by rw [b3.1, e1.1, s.gens]⟩, e1.trans b3, by rw [b4, hlen1],
+              b3.2.2 frm g dst hgt1 hfst⟩
             rw [b4, hlen1]
             have := s.rows
             omega
@@ -599,7 +604,7 @@ theorem potentialChildren_sinv {maxRows n : Nat} {rels R : List (List Int)} (hro
       rw [List.mem_range'_1] at hpos
       have hmin1 := Nat.min_le_left maxRows (t.len + 1)
       have hmin2 := Nat.min_le_right maxRows (t.len + 1)
-      refine derivedTable_sinv hrot hwr hwR s hgen hk ?_ (by omega) hd
+      refine (derivedTable_sinv hrot hwr hwR s hgen hk ?_ (by omega) hd).1
       by_cases hpl : pos < t.len
       · exact Or.inl hpl
       · exact Or.inr ⟨by omega, by omega⟩
